@@ -116,17 +116,21 @@ func dispHistCfgs(prop, tier string) []*histCfg {
 		// a multi-output constructor (result object / multiple returns / result object with error) whose
 		// SECOND output is nil on its first invocation: the constructor runs again for that output and
 		// re-creates the first one - both copies were created by the container and must be closed
-		for _, form := range []string{"resobj", "multi"} {
+		for _, form := range []string{"resobj", "multi", "multi-iface"} {
 			for _, life := range []string{"scoped", "transient", "singleton"} {
 				r0 := kit.Reg{ID: 0, Life: life, Err: true, ResObj: form == "resobj", Outs: []kit.Out{{T: "D0"}, {T: "D1"}}}
+				if form == "multi-iface" {
+					// the nil output is a nil INTERFACE (requested first: an error), its sibling is a live disposable
+					r0.Outs = []kit.Out{{T: "D0"}, {T: "IA", Conc: "D1"}}
+				}
 				spec := kit.Spec{Regs: []kit.Reg{r0,
 					{ID: 1, Life: "scoped", Outs: []kit.Out{{T: "D2"}}, Deps: []kit.Dep{{T: "D0"}}},
-					{ID: 2, Life: "scoped", In: true, Outs: []kit.Out{{T: "D3"}}, Deps: []kit.Dep{{T: "D1", Opt: true}, {T: "D0"}}}}}
+					{ID: 2, Life: "scoped", In: true, Outs: []kit.Out{{T: "D3"}}, Deps: []kit.Dep{{T: r0.Outs[1].T, Opt: true}, {T: "D0"}}}}}
 				if life == "singleton" {
 					spec.Regs = spec.Regs[:1]
 				}
 				out = append(out, &histCfg{Name: fmt.Sprintf("%s-hist/partial-nil-%s-%s", prop, form, life), Spec: spec,
-					Faults: map[string]string{"0:1": "nil:1"}, Probes: []Op{{Kind: "get", T: "D0"}, {Kind: "get", T: "D1"}, {Kind: "get", T: "D2"}, {Kind: "get", T: "D3"}}, MaxScopes: 2, Depth: depth - 1,
+					Faults: map[string]string{"0:1": "nil:1"}, Probes: []Op{{Kind: "get", T: "D0"}, {Kind: "get", T: map[bool]string{true: "IA", false: "D1"}[form == "multi-iface"]}, {Kind: "get", T: "D2"}, {Kind: "get", T: "D3"}}, MaxScopes: 2, Depth: depth - 1,
 					CtxKinds: []string{""}, Final: dispFinal, Oracle: dispOracle(prop)})
 			}
 		}
@@ -215,7 +219,7 @@ func init() {
 	registerDisp("C11", "same histories as C10 without faults; oracle on the global stamp sequence: within one owner (each scope; the singleton set) close order is exactly reverse creation order; every close in a descendant scope precedes every own-instance close of its ancestor; every scope-owned close (root scope included) precedes every singleton close; no disposable is closed while a still-open established disposable that received it exists. The property quantifies over configurations and histories; beyond it, the last clause (the stated consequence) is also checked on every schedule (bound 2/3) of the C10 overlap scenarios Resolve||Close(scope|provider), Resolve||cancel, CreateScope-with-initializers||Close, where 'established' means that the operation which constructed the instance completed successfully, or a completed operation handed it out - late arrivals the container refuses and disposes itself are not ordered.")
 	mc.Register(&mc.Check{
 		Prop: "C12", MinOutcomes: 10,
-		Rule:   "fault sequences: a tree of 4 scopes (provider > s1 > {s2, s3}) owning up to 8 disposables (2 singletons, an aliased singleton, an interface-typed scoped service that is plain in one scope and disposable in the next, scoped + transient per scope; every subset of the 6 resolutions performed, so that scopes owning nothing occur): every subset (all 256 when everything is resolved, all subsets for <=4 scope-owned instances, singles and pairs otherwise) of the Close methods failing x every node closed first, then the same node again, then the provider twice; schedules: 2 and 3 concurrent Close on one scope, Close || cancel, Close(child) || Close(parent) || Close(provider), bound 2/3, with failing instances. Oracle: every owned instance attempted exactly once; the first Close returns a DisposalError iff a failing instance is in its subtree, every injected error is reachable from exactly one returned error (none for closes done by the cancellation watcher), repeated / losing Closes return nil.",
+		Rule:   "fault sequences: a tree of 4 scopes (provider > s1 > {s2, s3}) owning up to 8 disposables (2 singletons, an aliased singleton, an interface-typed scoped service that is plain in one scope and disposable in the next, scoped + transient per scope; every subset of the 6 resolutions performed, so that scopes owning nothing occur): every subset (all 256 when everything is resolved, all subsets for <=4 scope-owned instances, singles and pairs otherwise) of the Close methods failing x every node closed first, then the same node again, then the provider twice; schedules: 2 and 3 concurrent Close on one scope, Close || cancel, Close(child) || Close(parent) || Close(provider), bound 2/3, with failing instances. Plus an owned instance whose own Close method closes its scope (or, from a child scope, the parent) again, through Close(scope|parent|provider) and cancel. Oracle: every owned instance attempted exactly once; the first Close returns a DisposalError iff a failing instance is in its subtree, every injected error is reachable from exactly one returned error (none for closes done by the cancellation watcher), repeated / losing Closes return nil.",
 		Assume: []string{"DisposalError.Errors is descended recursively together with errors.Unwrap"},
 		Jobs:   c12Jobs,
 	})
@@ -554,6 +558,7 @@ func c12Scenarios() []*Scenario {
 
 func c12Jobs(tier string) []mc.Job {
 	var jobs []mc.Job
+	jobs = append(jobs, mc.Job{Name: "C12-reentrant-close", Run: c12Reentrant})
 	for _, f := range []string{"s1", "s2", "s3", "prov", "cancel"} {
 		f := f
 		jobs = append(jobs, mc.Job{Name: "C12-seq/first-" + f, Weight: 5, Run: func(r *mc.Report) { c12Seq(r, []string{f}) }})
@@ -608,4 +613,69 @@ func churnAlphabet(h []Op) []Op {
 		}
 	}
 	return out
+}
+
+// c12Reentrant: an owned instance whose Close method closes its own scope again (a unit of work that
+// forwards Close to the scope it was injected with), and an instance of a child scope whose Close
+// closes the PARENT. The repeated Close is an ordinary "Close called again": it returns nil, and
+// the outer Close still closes everything once.
+func c12Reentrant(r *mc.Report) {
+	if r.Only != nil {
+		var m map[string]string
+		if jsonUnmarshal(r.Only, &m) != nil || m["variant"] == "" {
+			return
+		}
+	}
+	spec := kit.Spec{Regs: []kit.Reg{
+		{ID: 0, Life: "singleton", Outs: []kit.Out{{T: "D0"}}},
+		{ID: 1, Life: "scoped", Outs: []kit.Out{{T: "D1"}}, Deps: []kit.Dep{{T: "D0"}}},
+		{ID: 2, Life: "scoped", Outs: []kit.Out{{T: "D2"}}, Deps: []kit.Dep{{T: "scope"}, {T: "D1"}}, CloseScope: true},
+		{ID: 3, Life: "scoped", Outs: []kit.Out{{T: "D3"}}, Deps: []kit.Dep{{T: "D2"}}},
+	}}
+	variants := map[string][]Op{
+		"close-scope":    {{Kind: "scope", Bind: "s1"}, {Kind: "get", Scope: "s1", T: "D3"}, {Kind: "close", Scope: "s1"}, {Kind: "close", Scope: "s1"}},
+		"close-parent":   {{Kind: "scope", Bind: "s0"}, {Kind: "scope", Scope: "s0", Bind: "s1"}, {Kind: "get", Scope: "s1", T: "D3"}, {Kind: "get", Scope: "s0", T: "D1"}, {Kind: "close", Scope: "s0"}},
+		"close-provider": {{Kind: "scope", Bind: "s1"}, {Kind: "get", Scope: "s1", T: "D3"}, {Kind: "scope", Bind: "s2"}, {Kind: "get", Scope: "s2", T: "D2"}},
+		"cancel":         {{Kind: "scope", Bind: "s1", Ctx: "cancel"}, {Kind: "get", Scope: "s1", T: "D3"}, {Kind: "cancel", Scope: "s1"}, {Kind: "settle"}},
+	}
+	for _, name := range []string{"close-scope", "close-parent", "close-provider", "cancel"} {
+		ops := variants[name]
+		var e *Env
+		s := seqOnce(func() {
+			e = NewEnv(&spec)
+			e.Build()
+			if e.Prov == nil {
+				return
+			}
+			for _, op := range ops {
+				e.Do(op)
+			}
+			e.Do(Op{Kind: "close", Scope: ""})
+			e.Do(Op{Kind: "settle"})
+		})
+		r.Executions++
+		r.Validated++
+		r.States++
+		r.Transitions += int64(len(e.Results))
+		r.Outcome("re-entrant close " + name + " | " + closeSummary(e))
+		fs := genericFindings(e, s)
+		for _, in := range e.W.Insts {
+			if in.Disp && len(in.Closes) != 1 {
+				fs = append(fs, Finding{feat("clause", "attempt-count", "count", fmt.Sprint(len(in.Closes))), fmt.Sprintf("%s had Close called %d times, want exactly 1", in.Label(), len(in.Closes))})
+			}
+			for _, err := range in.RecloseErr {
+				if err != nil {
+					fs = append(fs, Finding{feat("clause", "repeated-close-returned-error"), fmt.Sprintf("the Close issued again from %s's own Close method returned %v, want nil", in.Label(), err)})
+				}
+			}
+		}
+		for _, rr := range e.Results {
+			if rr.Op.Kind == "close" && !rr.Skipped && rr.Err != nil {
+				fs = append(fs, Finding{feat("clause", "close-verdict", "want-error", "false"), fmt.Sprintf("%s returned %v although no Close method failed", rr.Op, rr.Err)})
+			}
+		}
+		for _, f := range fs {
+			r.Violate(f.F, f.Detail+"\n  re-entrant Close, variant "+name, map[string]string{"variant": name})
+		}
+	}
 }
